@@ -332,3 +332,232 @@ def contract(qual, serves=(), external=False):
         REG.add(cls())
         return cls
     return deco
+
+
+# ----------------------------------------------------------------------------- generators
+class YieldSpec:
+    """one kind of value a producer may yield.
+    ords:      yield ordinals (source order in the producer) this spec describes
+    when:      fn(ip, a, g) -> formula over the current state / generator ghost: may be yielded now
+    make:      fn(ip, a, g) -> fresh yielded value (consumer side)
+    guarantee: fn(ip, a, g, v) -> [(name, formula)] facts about v and the shared state at the yield
+    after:     fn(ip, a, g, v) -> None, updates the generator ghost g (both readings)
+    site:      free label used by drop() (e.g. 'body' / 'handler')"""
+    def __init__(self, name, ords, make=None, when=None, guarantee=None, after=None, site='body', tags=()):
+        self.name, self.ords, self.make, self.when = name, set(ords), make, when
+        self.guarantee, self.after, self.site, self.tags = guarantee, after, site, tuple(tags)
+
+
+class ProducerContract(Contract):
+    """contract of a generator function.  Consumer side: every `next()` is one of - a yield
+    described by a YieldSpec, an exception described by p_raises, exhaustion described by p_done;
+    abandoning the generator while it is suspended triggers drop() (the GeneratorExit edge).
+    Body side: every `yield` must satisfy its YieldSpec, every exit must match p_done / p_raises,
+    and the GeneratorExit edge of every yield must establish drop_ensures."""
+
+    coroutine = False
+
+    def gen_ghost(self, ip, a):
+        """initial ghost state of a new generator object: dict name -> value"""
+        return {}
+
+    def ghost_types(self):
+        return {}
+
+    def p_modifies(self, ip, a):
+        return []
+
+    def yields(self, ip, a):
+        return []
+
+    def p_raises(self, ip, a, old, g):
+        return []
+
+    def p_done(self, ip, a, old, g):
+        return []
+
+    def resume_havoc(self, ip, a, k):
+        """locations the consumer may legitimately change while the producer is suspended at yield k"""
+        return []
+
+    def resume_rely(self, ip, a, k, pre):
+        return []
+
+    def drop_modifies(self, ip, a, spec):
+        return []
+
+    def drop_ensures(self, ip, a, old, spec, v):
+        """state after the generator was abandoned while suspended at a yield of `spec`"""
+        return []
+
+    def start_requires(self, ip, a):
+        return self.requires(ip, a)
+
+    def step_effects(self, ip, a, gen, label):
+        """ghost effects of one producer step on the consumer's state (e.g. frames written)"""
+        return None
+
+    # ---- call of the generator function: returns a generator object, runs nothing
+    def apply(self, ip, bound):
+        st = ip.st
+        a = A(bound)
+        st.ghost.setdefault('callee_contracts', set()).add(self.qual)
+        key = st.fresh_id('gen')
+        gen = GenObj(self, a, key)
+        gen.g = dict(self.gen_ghost(ip, a))
+        gen.last = None
+        gen.started = False
+        return gen
+
+    def havoc_ghost(self, ip, gen):
+        for name, t in self.ghost_types().items():
+            gen.g[name] = mk(ip, t, 'gg_%s_%s' % (gen.key, name))
+
+    # ---- consumer side
+    def step(self, ip, gen, sent=None):
+        st = ip.st
+        a = gen.args
+        if gen.done:
+            return ('done',)
+        saved = ip.reading
+        ip.reading = 'call'
+        try:
+            if not gen.started:
+                for f in self.axioms(ip, a):
+                    st.assume(f)
+                for item in self.start_requires(ip, a):
+                    st.oblige('pre(%s):%s' % (short(self.qual), item[0]), item[1], tags=item[2] if len(item) > 2 else ())
+                gen.started = True
+            old = st.snapshot()
+            specs = self.yields(ip, a)
+            rspecs = self.p_raises(ip, a, old, gen.g)
+            labels = ['yield:' + s.name for s in specs] + ['raise:' + r.name for r in rspecs] + ['done']
+            choice = st.choose(labels, 'step:' + short(self.qual))
+            k = labels.index(choice)
+            self.havoc(ip, a, self.p_modifies(ip, a))
+            self.step_effects(ip, a, gen, choice)
+            if k < len(specs):
+                s = specs[k]
+                if s.when is not None:
+                    st.assume(s.when(ip, a, gen.g))
+                v = s.make(ip, a, gen.g)
+                for item in (s.guarantee(ip, a, gen.g, v) if s.guarantee else []):
+                    self._assume_post(ip, item, 'yield:' + s.name)
+                if s.after:
+                    s.after(ip, a, gen.g, v)
+                gen.last = (s, v)
+                return ('yield', v)
+            gen.done = True
+            gen.last = None
+            if k < len(specs) + len(rspecs):
+                r = rspecs[k - len(specs)]
+                if r.when is not None:
+                    st.assume(r.when)
+                for item in r.ensures:
+                    self._assume_post(ip, item, 'raises:' + r.name)
+                raise PyRaise(ExcVal(r.cls, tag='from:' + short(self.qual)))
+            for item in self.p_done(ip, a, old, gen.g):
+                self._assume_post(ip, item, 'done')
+            return ('done',)
+        finally:
+            ip.reading = saved
+
+    def drop(self, ip, gen):
+        """the consumer abandons the generator (break / exception / return out of a for loop, or
+        the consumer itself being closed): CPython finalises it at once (assumption B)"""
+        st = ip.st
+        if gen.done or gen.last is None:
+            gen.done = True
+            return
+        gen.done = True
+        s, v = gen.last
+        a = gen.args
+        saved = ip.reading
+        ip.reading = 'call'
+        try:
+            old = st.snapshot()
+            self.havoc(ip, a, self.drop_modifies(ip, a, s))
+            for item in self.drop_ensures(ip, a, old, s, v):
+                self._assume_post(ip, item, 'drop:' + s.name)
+        finally:
+            ip.reading = saved
+
+    def gen_method(self, ip, gen, name, args, kw):
+        if name in ('next', '__next__'):
+            r = self.step(ip, gen)
+            if r[0] == 'done':
+                if args:
+                    return args[0]
+                raise PyRaise(ExcVal(StopIteration))
+            return r[1]
+        if name == 'close':
+            self.drop(ip, gen)
+            return None
+        raise Unsupported('generator method %s' % name)
+
+    # ---- body side
+    def spec_for(self, ip, a, k):
+        for s in self.yields(ip, a):
+            if k in s.ords:
+                return s
+        return None
+
+    def at_yield(self, ip, k, v, node):
+        st = ip.st
+        a = ip.args
+        s = self.spec_for(ip, a, k)
+        if s is None:
+            st.oblige('yield%d:no-yield-spec-allows-a-yield-here' % k, BoolVal(False))
+            raise PathEnd('unspecified yield')
+        g = st.ghost.setdefault('self_gen', {})
+        if s.when is not None:
+            st.oblige('yield%d(%s):allowed-now' % (k, s.name), s.when(ip, a, g), tags=s.tags)
+        for item in (s.guarantee(ip, a, g, v) if s.guarantee else []):
+            st.oblige('yield%d(%s):%s' % (k, s.name, item[0]), item[1], tags=item[2] if len(item) > 2 else s.tags)
+        if s.after:
+            s.after(ip, a, g, v)
+        st.ghost['last_yield'] = (k, s, v)
+        st.ghost.setdefault('yield_trace', []).append((k, s.name))
+        if st.choose(['resume', 'close'], 'yield%d' % k) == 'close':
+            st.ghost['closing_at'] = (k, s, v, st.snapshot())
+            raise PyRaise(ExcVal(GeneratorExit, tag='closed-at-yield%d' % k))
+        pre = st.snapshot()
+        self.havoc(ip, a, self.resume_havoc(ip, a, k))
+        for item in self.resume_rely(ip, a, k, pre):
+            st.assume(item[1])
+        return self.received(ip, a, k, v)
+
+    def received(self, ip, a, k, v):
+        return None
+
+    def check_exit(self, ip, a, old, kind, res):
+        st = ip.st
+        g = st.ghost.setdefault('self_gen', {})
+        if kind == 'return':
+            for item in self.p_done(ip, a, old, g):
+                st.oblige('exhausted:%s' % item[0], item[1], tags=item[2] if len(item) > 2 else ())
+            return
+        exc = res
+        closing = st.ghost.get('closing_at')
+        if closing is not None and exc.cls is GeneratorExit:
+            k, s, v, snap = closing
+            for item in self.drop_ensures(ip, a, snap, s, v):
+                st.oblige('yield%d(%s):on-close:%s' % (k, s.name, item[0]), item[1], tags=item[2] if len(item) > 2 else ())
+            return
+        if closing is not None:
+            st.oblige('yield%d:exception-%s-while-being-closed' % (closing[0], exc.cls.__name__ if exc.cls else 'unknown'), BoolVal(False))
+            return
+        from .engine import exc_matches
+        matched = None
+        for r in self.p_raises(ip, a, old, g):
+            if exc_matches(exc, r.cls) is True and (r.when is None or st.feasible(r.when)):
+                matched = r
+                break
+        if matched is None:
+            st.oblige('no-unexpected-exception:%s%s' % (exc.cls.__name__ if exc.cls else 'unknown-' + exc.base.__name__,
+                                                        ('[' + exc.tag + ']') if exc.tag else ''), BoolVal(False))
+            return
+        if matched.when is not None:
+            st.oblige('raises-only-when:%s' % matched.name, matched.when, tags=matched.tags)
+        for item in matched.ensures:
+            st.oblige('raises-ensures:%s:%s' % (matched.name, item[0]), item[1], tags=item[2] if len(item) > 2 else matched.tags)
